@@ -47,14 +47,14 @@ func c12Owned(f func()) (infra string) {
 }
 
 type c12Space struct {
-	part     string
-	paths    []int // indices into c12Paths, -1 = long fat path
-	maxPkts  int64
-	prefix   []int
-	depth    int // all sequences of <= depth macro-events
-	drawsTo  int // sequences of <= drawsTo macro-events are run with every draw (if they consume one)
-	rootLen  int // prefix-sharing walk: sequences of this length are the roots of the work items
-	skipDef  bool // from-scratch enumeration: the first draw was already covered by the walk
+	part    string
+	paths   []int // indices into c12Paths, -1 = long fat path
+	maxPkts int64
+	prefix  []int
+	depth   int  // all sequences of <= depth macro-events
+	drawsTo int  // sequences of <= drawsTo macro-events are run with every draw (if they consume one)
+	rootLen int  // prefix-sharing walk: sequences of this length are the roots of the work items
+	skipDef bool // from-scratch enumeration: the first draw was already covered by the walk
 }
 
 func c12Sig(c *c12Case, clause string, drawUsed bool) string {
@@ -67,7 +67,7 @@ func c12Sig(c *c12Case, clause string, drawUsed bool) string {
 		pre = "prefix=" + c12SeqNames(c.Prefix) + "/"
 	}
 	if c.RTTs > 0 {
-		return fmt.Sprintf("%s/%s/%s/%s/clean-%d-rtt/draw=%s", c.Part, clause, c.Profile, c12PathOf(c.Path).Name, c.RTTs, d)
+		return fmt.Sprintf("%s/%s/%s/%s/%sclean-%d-rtt/draw=%s", c.Part, clause, c.Profile, c12PathOf(c.Path).Name, pre, c.RTTs, d)
 	}
 	if c.Raise > 0 {
 		return fmt.Sprintf("%s/%s/%s/%s/prefix=%s/window=%s,recovery=%q,raise=+%d/seq=%s", c.Part, clause, c.Profile, c12PathOf(c.Path).Name, c12SeqNames(c.Prefix), c.ForceWin, c.ForceRec, c.Raise, c12SeqNames(c.Seq))
@@ -108,8 +108,8 @@ func c12Minimal(sp *c12Space, found *c12Case, clause string) (c12Case, c12Result
 }
 
 type c12Agg struct {
-	sh       *evidence.Shard
-	reported map[string]bool
+	sh        *evidence.Shard
+	reported  map[string]bool
 	walkNodes int64
 }
 
@@ -230,6 +230,19 @@ func c12EnumSpace(a *c12Agg, sp *c12Space, item *int64) {
 	}
 }
 
+// c12LossFreeWarm: what the sender went through, loss-free, before the measured greedy run.
+func c12LossFreeWarm() [][]int {
+	w := [][]int{{}}
+	for i := range c12Pings {
+		w = append(w, []int{c12NEv + i})
+	}
+	for i := range c12Pings {
+		w = append(w, []int{c12EvClean12, c12EvClean12, c12EvClean12, c12NEv + i}) // on an established connection
+	}
+	w = append(w, []int{c12EvApp}, []int{c12EvClean12, c12EvApp}, []int{c12EvIdle}, []int{c12EvClean12, c12EvClean12, c12EvIdle}, []int{c12EvClean12, c12EvAgg, c12EvApp, c12NEv + 2})
+	return w
+}
+
 func c12LossFree(a *c12Agg, item *int64) {
 	sh := a.sh
 	env := sh.Env()
@@ -238,37 +251,67 @@ func c12LossFree(a *c12Agg, item *int64) {
 	for i := range c12Paths {
 		names = append(names, c12Paths[i].Name)
 	}
-	p.Alphabet = map[string]any{"profiles": c12Profiles, "paths": names, "cycle_offset_draws": c12Draws, "run": "200 RTT, sender always has data, no injected loss; utilisation = acknowledged bytes in RTT 40..200 / (capacity * 160 RTT)"}
-	p.Bounds = map[string]any{"threshold": "utilisation >= 0.50 for every draw", "rtts": 200}
+	warm := c12LossFreeWarm()
+	var wn []string
+	for _, w := range warm {
+		wn = append(wn, c12SeqNames(w))
+	}
+	p.Alphabet = map[string]any{"profiles": c12Profiles, "paths": names, "cycle_offset_draws": c12Draws,
+		"before_the_run": wn, "pingpongKxNpkt+Trtt": "K exchanges: the application sends N packets, then nothing until all are acknowledged (pipe empty), then waits T round trips",
+		"run": "200 RTT, sender always has data, no injected loss; utilisation = acknowledged bytes in RTT 40..200 / (capacity * 160 RTT)"}
+	p.Bounds = map[string]any{"threshold": "utilisation >= 0.50 over RTT 40..200 and in each of the four 40-RTT windows in it, for every draw", "rtts": 200}
 	for _, prof := range c12Profiles {
 		for pi := range c12Paths {
-			*item++
-			if !env.Mine(*item) {
-				continue
-			}
-			lo, hi := 10.0, 0.0
-			var tail int64
-			for _, dv := range c12Draws {
-				c := c12Case{Part: "loss-free", Profile: string(prof), Path: pi, MaxPkts: c12RealMaxPkts, Draw: dv, RTTs: 200}
-				r := c12Run(&c)
-				a.observe(p, &c, &r)
-				if r.infra != "" {
-					sh.InfraError("%s: %s", c12Sig(&c, "infra", r.drawUsed), r.infra)
-					return
+			for wi, w := range warm {
+				if wi > 0 && c12Paths[pi].AckEvery > 2 {
+					continue // see the assumption on acknowledgement frequency
 				}
-				if r.clause == "" && r.util < 0.5 {
-					r.clause = "utilisation<50%"
-					r.detail = fmt.Sprintf("clean run of 200 RTT delivered %.1f%% of capacity after the first 40 RTT (tail drops %d, final mode %d)", 100*r.util, r.sim.tailDrops, r.sim.b.mode)
-				}
-				if r.clause != "" {
-					a.violate(&c12Space{part: "loss-free"}, p, &c, &r)
+				*item++
+				if !env.Mine(*item) {
 					continue
 				}
-				lo, hi = min(lo, r.util), max(hi, r.util)
-				tail += r.sim.tailDrops
+				if env.Expired() {
+					p.Exhaustive = false
+					p.Note("deadline reached")
+					return
+				}
+				lo, hi, loWin := 10.0, 0.0, 10.0
+				var tail int64
+				for di, dv := range c12Draws {
+					if wi > 0 && di > 0 && !env.Thorough() {
+						break // quick: every draw only for the plain run
+					}
+					c := c12Case{Part: "loss-free", Profile: string(prof), Path: pi, MaxPkts: c12RealMaxPkts, Prefix: w, Draw: dv, RTTs: 200}
+					r := c12Run(&c)
+					a.observe(p, &c, &r)
+					if r.infra != "" {
+						sh.InfraError("%s: %s", c12Sig(&c, "infra", r.drawUsed), r.infra)
+						return
+					}
+					if r.clause == "" && r.util >= 0.5 && r.utilMinWin < 0.5 {
+						r.clause = "a-40-rtt-window<50%"
+						r.detail = fmt.Sprintf("after %s, a clean run of 200 RTT delivered %.1f%% of capacity after its first 40 RTT, but only %.1f%% in one of the 40-RTT windows after them (tail drops %d, final mode %d)", c12SeqNames(w), 100*r.util, 100*r.utilMinWin, r.sim.tailDrops, r.sim.b.mode)
+					}
+					if r.clause == "" && r.util < 0.5 {
+						r.clause = "utilisation<50%"
+						r.detail = fmt.Sprintf("after %s, a clean run of 200 RTT delivered %.1f%% of capacity after its first 40 RTT (tail drops %d, final mode %d)", c12SeqNames(w), 100*r.util, r.sim.tailDrops, r.sim.b.mode)
+					}
+					if r.clause != "" {
+						a.violate(&c12Space{part: "loss-free"}, p, &c, &r)
+						continue
+					}
+					loWin = min(loWin, r.utilMinWin)
+					lo, hi = min(lo, r.util), max(hi, r.util)
+					tail += r.sim.tailDrops
+				}
+				if wi == 0 {
+					p.Note("utilisation %s on %s: min %.1f%% max %.1f%% over %d draws (queue overflows caused by the sender itself: %d)", prof, c12Paths[pi].Name, 100*lo, 100*hi, len(c12Draws), tail)
+					p.Count(fmt.Sprintf("util_permille_min_%s_%s", prof, c12Paths[pi].Name), int64(1000*lo))
+					p.Count(fmt.Sprintf("util_permille_lowest_40rtt_window_%s_%s", prof, c12Paths[pi].Name), int64(1000*loWin))
+				} else if lo < 10 {
+					p.Class("utilisation-decile-after", c12SeqNames(w), int(lo*10), "lowest-40-rtt-window", int(loWin*10))
+				}
 			}
-			p.Note("utilisation %s on %s: min %.1f%% max %.1f%% over %d draws (queue overflows caused by the sender itself: %d)", prof, c12Paths[pi].Name, 100*lo, 100*hi, len(c12Draws), tail)
-			p.Count(fmt.Sprintf("util_permille_min_%s_%s", prof, c12Paths[pi].Name), int64(1000*lo))
 		}
 	}
 }
